@@ -2,7 +2,7 @@
    This file holds only the property theorems, each closed by `exact <lemma>`, with
    Print Assumptions beneath, and non-vacuity examples.
    Model: C12/Model.v (tied to distsys/resources/{gcounter,aworset,lww}.go by ./check C12). *)
-From PGV Require Import C12.Model C12.ProofsAL C12.ProofsGC C12.ProofsSys C12.ProofsGCHist C12.ProofsLWW C12.ProofsAW C12.ProofsConv.
+From PGV Require Import C12.Model C12.ProofsAL C12.ProofsGC C12.ProofsSys C12.ProofsGCHist C12.ProofsLWW C12.ProofsAW C12.ProofsConv C12.ProofsSysX C12.ProofsAWSeq.
 From Coq Require Import Lia.
 Open Scope Z_scope.
 
@@ -339,3 +339,40 @@ Theorem lwwset_convergence_from_laws : forall ops r1 r2,
   same_updates (lww_delivered ops r1) (lww_delivered ops r2) -> lww_eqv (reps (lww_run ops) r1) (reps (lww_run ops) r2).
 Proof. exact lww_convergence_from_laws. Qed.
 Print Assumptions lwwset_convergence_from_laws.
+
+(* ================================================================ AWORSet, histories without concurrent updates of one element *)
+(* aw_sequential ops: whenever a replica updates element e (command add or remove, no clock overflow),
+   every update of e performed so far by any replica has been delivered to it.  On these histories the
+   positive statements hold (partial: the full statements above are refuted). `dominates log D e x`:
+   x is a delivered update of e whose clock is strictly above the clock of every other delivered
+   update of e (the latest one). *)
+Theorem aworset_convergence_partial : forall ops r1 r2, aw_sequential ops ->
+  same_updates (aw_delivered ops r1) (aw_delivered ops r2) ->
+  forall e, In e (aw_read (reps (aw_run ops) r1)) <-> In e (aw_read (reps (aw_run ops) r2)).
+Proof. intros ops r1 r2 H1 H2. exact (proj2 (aw_seq_convergence ops r1 r2 H1 H2)). Qed.
+Print Assumptions aworset_convergence_partial.
+
+Theorem aworset_read_partial : forall ops r e, aw_sequential ops ->
+  (In e (aw_read (reps (aw_run ops) r)) <->
+   exists x, dominates (g_log (snd (aw_xrun ops))) (aw_delivered ops r) e x /\ cmd_of x = addOp).
+Proof. intros ops r e H. exact (aw_seq_read ops r e H). Qed.
+Print Assumptions aworset_read_partial.
+
+(* non-vacuity: add by 0, delivered to 1, removed by 1, delivered to 0 (through gob), re-added by 0; another element by 1 *)
+Definition aw_seq_example : list aw_op :=
+  [OWrite 0 (1, 7); OSnap 0 false; ODeliver 1 0%nat; OWrite 1 (2, 7); OSnap 1 true; ODeliver 0 1%nat; OWrite 0 (1, 7);
+   OWrite 1 (1, 8)].
+
+Example aworset_sequential_nonvacuous :
+  aw_sequential aw_seq_example /\ aw_read (reps (aw_run aw_seq_example) 0) = [7] /\ aw_read (reps (aw_run aw_seq_example) 1) = [8].
+Proof.
+  split; [|split; vm_compute; reflexivity].
+  unfold aw_sequential, aw_seq_example.
+  change [OWrite 0 (1, 7); OSnap 0 false; ODeliver 1 0%nat; OWrite 1 (2, 7); OSnap 1 true; ODeliver 0 1%nat; OWrite 0 (1, 7); OWrite 1 (1, 8)]
+    with ((((((((([] : list aw_op) ++ [OWrite 0 (1, 7)]) ++ [OSnap 0 false]) ++ [ODeliver 1 0%nat]) ++ [OWrite 1 (2, 7)]) ++ [OSnap 1 true]) ++ [ODeliver 0 1%nat]) ++ [OWrite 0 (1, 7)]) ++ [OWrite 1 (1, 8)]).
+  repeat (apply validx_snoc_intro); try apply validx_nil; intros r a E; inversion E; subst; clear E.
+  all: split; [vm_compute; reflexivity|]; split; [cbn; tauto|].
+  all: intros [ry ky ay] [s Hs] He; unfold elem_of in He; cbn [ev_arg ev_rep ev_seq snd] in *.
+  all: destruct ry as [|[p|p|]|p]; vm_compute in Hs; destruct ky as [|[|[|ky]]]; try discriminate Hs;
+       inversion Hs; subst; cbn in He; try lia; vm_compute; tauto.
+Qed.
